@@ -72,4 +72,33 @@ Section Exec.
     | Err e => RErr e
     | Ok sp => run_sym_decrypt sp ct
     end.
+  (* ---- RSA (fix 2eb33d4): public_key.encrypt / private_key.decrypt / key.sign run inside try/except Exception;
+     None = the backend refuses (message too long for key and padding, cipher text of the wrong length or that does
+     not decrypt, key too small for the padding) -> CryptographicFailure *)
+  Variable RE : bytes -> asym_pad -> bytes -> option bytes.
+  Variable RD : bytes -> asym_pad -> bytes -> option bytes.
+  Variable RS : sig_plan -> bytes -> option bytes.
+
+  (* encrypt() / decrypt() / sign() end to end, symmetric and asymmetric *)
+  Definition do_encrypt_any (p : enc_params) (msg : bytes) : run_res enc_out :=
+    match encrypt_plan p with
+    | Err e => RErr e
+    | Ok (CSym sp) => run_sym_encrypt sp msg
+    | Ok (CAsym key ap) =>
+        match RE key ap msg with Some ct => ROk (mkOut ct None None) | None => RErr CryptographicFailure end
+    end.
+
+  Definition do_decrypt_any (p : enc_params) (ct : bytes) : run_res bytes :=
+    match decrypt_plan p with
+    | Err e => RErr e
+    | Ok (CSym sp) => run_sym_decrypt sp ct
+    | Ok (CAsym key ap) =>
+        match RD key ap ct with Some m => ROk m | None => RErr CryptographicFailure end
+    end.
+
+  Definition do_sign (p : sig_params) (msg : bytes) : run_res bytes :=
+    match sign_plan p with
+    | Err e => RErr e
+    | Ok sp => match RS sp msg with Some sg => ROk sg | None => RErr CryptographicFailure end
+    end.
 End Exec.
